@@ -123,6 +123,10 @@ func ParseShootName(shoot string) (string, int, int, error) {
 	return name, cnt, sleep, nil
 }
 
+// MaxScenarioRequests bounds the number of requests one scenario expands to. The repeat count of `name(count)` is
+// user input: an absurd one must be a config error, not an append loop that exhausts the memory of the generator.
+const MaxScenarioRequests = 1 << 20
+
 // MaxSpreadSize bounds the number of ammo the scenario weights are spread into. Weights are user input: absurd
 // ones must be a config error, not a slice capacity that overflows int (make panics on a negative or
 // out-of-range capacity) or an allocation that exhausts the memory of the generator.
